@@ -1,7 +1,7 @@
 /-
   C13, unified(): the whole of `ProvDocument.unified()` (copies, merges, new containers, attaching the unified bundles)
   leaves every container cell and every record cell that existed before the call exactly as it was: content, record
-  order, identifier index, bundle table. (Namespace-manager cells of the source are *not* claimed: known finding C13-1.)
+  order, identifier index, bundle table. (Namespace-manager cells of the source: `Props/C13M`.)
 -/
 import Prov.Props.C13
 
@@ -117,46 +117,59 @@ theorem frameB_mergeGo (nc nr : Nat) (mref : Nat) (hm : nr ≤ mref) : ∀ (rs :
     | none => exact frameB_trans s1 (frameB_mergeGo nc nr mref hm more h')
     | some err => exact s1
 
-theorem frameB_mergeGroup (nc nr : Nat) (h : Heap) (rs : List Nat) (hnr : nr ≤ h.recs.size) :
+/-- the scratch copy of a group's first record: a new container, a new record, nothing else -/
+theorem frameB_scratchCopy (nc nr : Nat) (h : Heap) (r0 : Nat) (hnc : nc ≤ h.conts.size) (hnr : nr ≤ h.recs.size) :
+    FrameB nc nr h (h.scratchCopy r0).1 ∧
+      (∀ r, (h.scratchCopy r0).2 = .ok r → nr ≤ r) := by
+  unfold scratchCopy
+  simp only []
+  obtain ⟨s0, _, _⟩ := frameB_allocCont nc nr h false none [] none hnc
+  generalize h.allocCont false none [] none = al at s0
+  obtain ⟨h0, sc⟩ := al
+  simp only at s0 ⊢
+  have hnr0 : nr ≤ h0.recs.size := Nat.le_trans hnr s0.rsize
+  obtain ⟨s1, hidx⟩ := frameB_mkRecord nc nr h0 sc (h.recCell r0).r.kind (h.recCell r0).r.id
+    ((h.recCell r0).r.flat.map (fun p => ({ name := .qn p.1, value := .val p.2 } : AttrArg))) hnr0
+  exact ⟨frameB_trans s0 s1, fun r hr => by rw [(hidx r hr).1]; exact hnr0⟩
+
+theorem frameB_mergeGroup (nc nr : Nat) (h : Heap) (rs : List Nat) (hnc : nc ≤ h.conts.size) (hnr : nr ≤ h.recs.size) :
     FrameB nc nr h (h.mergeGroup rs).1 := by
   unfold mergeGroup
   cases rs with
   | nil => exact frameB_refl nc nr h
   | cons r0 rest =>
-    simp only [copyRecord]
-    obtain ⟨s1, hidx⟩ := frameB_mkRecord nc nr h (h.recCell r0).bundle (h.recCell r0).r.kind (h.recCell r0).r.id
-      ((h.recCell r0).r.flat.map (fun p => ({ name := .qn p.1, value := .val p.2 } : AttrArg))) hnr
-    generalize h.mkRecord (h.recCell r0).bundle (h.recCell r0).r.kind (h.recCell r0).r.id
-      ((h.recCell r0).r.flat.map (fun p => ({ name := .qn p.1, value := .val p.2 } : AttrArg))) = res at s1 hidx
+    simp only []
+    obtain ⟨s1, hidx⟩ := frameB_scratchCopy nc nr h r0 hnc hnr
+    generalize h.scratchCopy r0 = res at s1 hidx
     obtain ⟨h1, e⟩ := res
     cases e with
     | error err => exact s1
     | ok mref =>
       simp only []
-      have hm : nr ≤ mref := by rw [(hidx mref rfl).1]; exact hnr
+      have hm : nr ≤ mref := hidx mref rfl
       have s2 := frameB_mergeGo nc nr mref hm rest h1
       generalize mergeGroup.go mref h1 rest = res2 at s2
       obtain ⟨h2, e2⟩ := res2
       cases e2 <;> exact frameB_trans s1 s2
 
-theorem frameB_mergeAll (nc nr : Nat) : ∀ (gs : List (List Nat)) (h : Heap) (acc : List (Nat × Nat)), nr ≤ h.recs.size →
-    FrameB nc nr h (unifiedRecords.mergeAll h acc gs).1
-  | [], h, _, _ => frameB_refl nc nr h
-  | g :: gs, h, acc, hnr => by
+theorem frameB_mergeAll (nc nr : Nat) : ∀ (gs : List (List Nat)) (h : Heap) (acc : List (Nat × Nat)), nc ≤ h.conts.size →
+    nr ≤ h.recs.size → FrameB nc nr h (unifiedRecords.mergeAll h acc gs).1
+  | [], h, _, _, _ => frameB_refl nc nr h
+  | g :: gs, h, acc, hnc, hnr => by
     unfold unifiedRecords.mergeAll
-    have s1 := frameB_mergeGroup nc nr h g hnr
+    have s1 := frameB_mergeGroup nc nr h g hnc hnr
     generalize h.mergeGroup g = res at s1
     obtain ⟨h1, e⟩ := res
     cases e with
     | error err => exact s1
-    | ok mref => exact frameB_trans s1 (frameB_mergeAll nc nr gs h1 _ (Nat.le_trans hnr s1.rsize))
+    | ok mref => exact frameB_trans s1 (frameB_mergeAll nc nr gs h1 _ (Nat.le_trans hnc s1.csize) (Nat.le_trans hnr s1.rsize))
 
-theorem frameB_unifiedRecords (nc nr : Nat) (h : Heap) (c : Nat) (hnr : nr ≤ h.recs.size) :
+theorem frameB_unifiedRecords (nc nr : Nat) (h : Heap) (c : Nat) (hnc : nc ≤ h.conts.size) (hnr : nr ≤ h.recs.size) :
     FrameB nc nr h (h.unifiedRecords c).1 := by
   unfold unifiedRecords
   simp only []
   have s1 := frameB_mergeAll nc nr
-    (((h.cont c).idMap.flatMap (fun e => (groupByKind h e.2).map (·.2))).filter (fun g => g.length > 1)) h [] hnr
+    (((h.cont c).idMap.flatMap (fun e => (groupByKind h e.2).map (·.2))).filter (fun g => g.length > 1)) h [] hnc hnr
   generalize unifiedRecords.mergeAll h [] _ = res at s1
   obtain ⟨h1, e⟩ := res
   cases e <;> exact s1
@@ -164,7 +177,7 @@ theorem frameB_unifiedRecords (nc nr : Nat) (h : Heap) (c : Nat) (hnr : nr ≤ h
 theorem frameB_unifiedBundle (nc nr : Nat) (h : Heap) (c : Nat) (hnc : nc ≤ h.conts.size) (hnr : nr ≤ h.recs.size) :
     FrameB nc nr h (h.unifiedBundle c).1 ∧ ∀ b, (h.unifiedBundle c).2 = .ok b → nc ≤ b := by
   unfold unifiedBundle
-  have s1 := frameB_unifiedRecords nc nr h c hnr
+  have s1 := frameB_unifiedRecords nc nr h c hnc hnr
   generalize h.unifiedRecords c = res at s1
   obtain ⟨h1, e⟩ := res
   cases e with
@@ -267,7 +280,7 @@ theorem frameB_unifiedGo (nc nr : Nat) (nd : Nat) (hnd : nc ≤ nd) : ∀ (bs : 
 theorem frameB_unifiedInto (nc nr : Nat) (h2 : Heap) (d nd : Nat) (hnd : nc ≤ nd) (hnc : nc ≤ h2.conts.size)
     (hnr : nr ≤ h2.recs.size) : FrameB nc nr h2 (h2.unifiedInto d nd).1 := by
   unfold unifiedInto
-  have s3 := frameB_unifiedRecords nc nr h2 d hnr
+  have s3 := frameB_unifiedRecords nc nr h2 d hnc hnr
   generalize h2.unifiedRecords d = res at s3
   obtain ⟨h3, e⟩ := res
   cases e with
@@ -289,7 +302,7 @@ theorem frameB_unifiedInto (nc nr : Nat) (h2 : Heap) (d nd : Nat) (hnd : nc ≤ 
 
 /-- **`unified()` never touches what was there**: every container cell (records and their order, identifier index,
     identifier, bundle table) and every record cell that existed before `ProvDocument.unified()` is unchanged after it,
-    whether it succeeds or raises. What it may change in the source is namespace-manager state only (known finding C13-1). -/
+    whether it succeeds or raises. Namespace-manager cells: `Props/C13M`. -/
 theorem c13_unified_frame (h : Heap) (d : Nat) : FrameB h.conts.size h.recs.size h (h.unifiedDoc d).1 := by
   unfold unifiedDoc
   simp only []
